@@ -135,10 +135,11 @@ def build_repo(flavor="asan"):
             shutil.rmtree(d)
         tmp.rename(d)
         log(f"[build] repo {flavor} {key} in {time.time()-t0:.1f}s")
-        # prune old builds (keep the 4 most recent)
+        # prune old builds: never one used in the last 3 hours (a running check may hold it), keep <= 12
         ds = sorted((p for p in (BUILD / "repo").iterdir() if p.is_dir()), key=lambda p: p.stat().st_mtime)
-        for old in ds[:-4]:
-            shutil.rmtree(old, ignore_errors=True)
+        for old in ds[:-12]:
+            if time.time() - old.stat().st_mtime > 3 * 3600:
+                shutil.rmtree(old, ignore_errors=True)
     return d
 
 
@@ -202,8 +203,23 @@ def lake_build(targets=("SSVerif", "ssdriver")):
     return r.returncode == 0, r.stdout
 
 
+_DRIVER_COPY = None
+
+
 def driver_path():
-    return LEAN / ".lake" / "build" / "bin" / "ssdriver"
+    """the compiled driver; a check works on its own copy (made after its lake build) so that a
+    concurrent relink by another check cannot pull the binary away mid-run"""
+    return _DRIVER_COPY or (LEAN / ".lake" / "build" / "bin" / "ssdriver")
+
+
+def pin_driver(scratch):
+    global _DRIVER_COPY
+    src = LEAN / ".lake" / "build" / "bin" / "ssdriver"
+    dst = Path(scratch) / "ssdriver.pinned"
+    with flock("lake.lock"):
+        shutil.copy2(src, dst)
+    _DRIVER_COPY = dst
+    return dst
 
 
 def run_driver(sub, stdin_text, timeout=600, args=()):
@@ -235,10 +251,30 @@ def strip_comments(src):
     return "".join(out)
 
 
-def grep_forbidden():
-    """Forbidden constructs anywhere in the library (outside comments)."""
+def import_closure(roots):
+    """source files of this project reachable through `import` from the given modules"""
+    seen, todo = {}, list(roots)
+    while todo:
+        m = todo.pop()
+        if m in seen:
+            continue
+        f = LEAN / (m.replace(".", "/") + ".lean")
+        if not f.exists():
+            continue
+        seen[m] = f
+        for im in re.findall(r"^\s*(?:public\s+)?import\s+([\w.]+)", f.read_text(), re.M):
+            if im.startswith(("SSVerif", "Driver")):
+                todo.append(im)
+    return sorted(seen.values())
+
+
+def grep_forbidden(roots=None):
+    """Forbidden constructs (outside comments) in the modules the given roots import
+    (default: the whole library)."""
     hits = []
-    for p in sorted(list((LEAN / "SSVerif").rglob("*.lean")) + list((LEAN / "Driver").rglob("*.lean"))):
+    files = import_closure(roots) if roots else \
+        sorted(list((LEAN / "SSVerif").rglob("*.lean")) + list((LEAN / "Driver").rglob("*.lean")))
+    for p in files:
         body = strip_comments(p.read_text())
         for n, line in enumerate(body.split("\n"), 1):
             if FORBIDDEN_RE.search(line):
@@ -388,9 +424,10 @@ class Check:
                     out[-3000:] if not ok else "")
         if not ok:
             return False
-        hits = grep_forbidden()
-        self.oblige("no sorry/admit/axiom/native_decide/bv_decide/implemented_by/unsafe/maxHeartbeats 0 in the library",
-                    not hits, hits)
+        pin_driver(self.scratch)
+        hits = grep_forbidden([f"SSVerif.Props.{self.prop}", "Driver.Main"])
+        self.oblige("no sorry/admit/axiom/native_decide/bv_decide/implemented_by/unsafe/maxHeartbeats 0 in the modules "
+                    "this property's theorems and the driver import", not hits, hits)
         thms, problems = audit_axioms(self.prop)
         self.theorems = thms
         for t, ax in sorted(thms.items()):
